@@ -300,8 +300,8 @@ def slot_templates():
     t["array_values"] = (2, lambda h: ["array", [h[0][1], h[1][1]]])
     t["array_mixed"] = (2, lambda h: ["array", [["add", A_, h[0]], h[1][1]]])
     t["array_column"] = (1, lambda h: ["array", [A_, h[0][1]]])
-    t["array_nested_column"] = (2, lambda h: ["array", [["pylist", [h[0][1], A_]], ["pylist", [h[1][1], ["raw", 3]]]]])
-    t["fn_extract_value_part"] = (2, lambda h: ["fn", "Extract", [h[0], ["add", A_, h[1]]]])
+    t["arraynested_column"] = (2, lambda h: ["array", [["pylist", [h[0][1], A_]], ["pylist", [h[1][1], ["raw", 3]]]]])
+    t["fnextract_value_part"] = (2, lambda h: ["fn", "Extract", [h[0], ["add", A_, h[1]]]])
     t["tuple_in"] = (4, lambda h: ["in", ["tuple", [["add", A_, h[0]], h[1]]], [["tuple", [h[2], h[3]]]]])
     # JSON operators: the right operand (key / index / document) is a value like any other
     t["json_get_index"] = (3, lambda h: ["eq", ["get_json_value", ["get_json_value", A_, h[0]], h[1]], h[2]])
